@@ -34,11 +34,15 @@ PROPS = {
         level='proof',
         explain='Ordering obligations on the ghost durable lengths of the block writer: create/delete return with synced == wal (O-C03-cd-*), '
                 'persist(a) satisfies the BlockWrite::persist contract (O-C03-persist), append/truncate satisfy the policy (O-C03-policy-*), '
-                'and at the call directory().gc() the whole WAL is synced (O-C03-gc, spliced assertion).',
+                'and at the call directory().gc() the whole WAL is synced (O-C03-gc, spliced assertion). '
+                'The block writer itself is verified: RollingWriter::persist implements BlockWrite::persist over the ghost lengths of the BufWriter<File> stand-in (flush => flushed == written; fdatasync => synced == flushed), '
+                'and at a file roll-over the file being left is proved fully flushed and fsynced before its handle is dropped (P-C03-rollover-ghost; wr_wf: every file left behind is durable); '
+                'the directory fsync is still called on both paths (O-C03-*-dir-sync, structural).',
         kani_quick=[], kani_thorough=[],
         trusted=[FS, 'PersistState::update_persisted / From<PersistPolicy> (Instant arithmetic, assumed contracts)'],
         not_decided=['that recovery from the synced/flushed image yields a state at least as recent (needs a crash model: C02)',
-                     'roll-over ordering inside RollingWriter::write'],
+                     'what fsync of the directory achieves (no ghost effect modelled; only its presence is checked)',
+                     'the state of the file after a FAILED write (the code keeps an advanced offset)'],
     ),
     'C04': dict(
         level='proof',
@@ -66,8 +70,9 @@ PROPS = {
                 'truncate_head keeps exactly the handles of the retained records (O-C06-place-trunc); the clone of the current file is held across the GC pass (O-C01-gc-pin, syntactic ownership check). '
                 'FileTracker::take_first_unused hands out only the OLDEST tracked file and never the last remaining one (O-C06-take-oldest); Directory::gc removes a strict prefix of the tracked files and keeps at least one (O-C06-gc-prefix) '
                 '-- both verified against assumed contracts of BTreeSet::{first,pop_first}; the GC pass is invoked unconditionally by truncate/delete_queue/open (O-C06-gc-invoked-*, syntactic). '
-                '(2) Kani K-handles, BOUNDED (fixed 3-append / 2-file shape, symbolic truncate position): a file handle can_be_deleted() iff no retained record was appended with it.',
-        kani_quick=['K-handles'], kani_thorough=[],
+                '(2) Kani K-handles, BOUNDED (fixed 3-append / 2-file shape, symbolic truncate position): a file handle can_be_deleted() iff no retained record was appended with it. '
+                '(3) E-gate, BOUNDED, native exhaustive enumeration (not symbolic; CBMC exceeds 12 GB on any BTreeSet<FileNumber>): for trackers of 1..=5 files and every subset of pinned files, the GC gate has_files_that_can_be_deleted() is true exactly when a GC pass removes a file, and the pass removes exactly the unpinned prefix short of the last file.',
+        kani_quick=['K-handles', 'E-gate'], kani_thorough=[],
         trusted=['everything outside the harness'],
         not_decided=['that can_be_deleted() is true exactly when no queue retains a record of the file (Arc strong counts; bounded K-handles only)', 'FileTracker::{next,inc} (BTreeSet::range)', 'the directory listing itself', 'disk_used_bytes'],
     ),
